@@ -58,6 +58,11 @@ func (c *checkSchema) checkType(name string, typ ischema.Type, ss map[string]isc
 		panic(errs.ErrRuntimeFailure.F())
 	}()
 
+	if typ.Schema.RootNode() == nil {
+		// A type without a value (blank text, only comments or annotations).
+		panic(kit.NewJSchemaError(typ.RootFile, errs.ErrEmptyType.F(name)))
+	}
+
 	c.checkNode(typ.Schema.RootNode(), ss)
 }
 
